@@ -19,9 +19,10 @@ EXPLANATION = (
     'symbol for symbol.  dict()/from_dict likewise.  parse_string must raise ValueError - and nothing else - for a catalogue of '
     'malformed texts (unknown type, empty text, missing "=", bad numbers, duplicated / unknown attributes, broken data lists), '
     'and parse_string_stream must report each as (None, text with its line number) and carry on, skipping blank lines and '
-    'comments.  repr: every __repr__ of a message / track / file class formats attribute values and elements with repr '
-    'conversion and takes keyword names from the table the constructor accepts; every len()-branch of MidiTrack.__repr__ is '
-    'checked.')
+    'comments.  eval(repr(x)): the repr text of ~40 abstract objects (every message type, meta and unknown meta messages, '
+    'frozen variants, tracks of 0-3 messages, files of 0-2 tracks) is computed in the string domain, symbolic segments are '
+    'replaced by placeholders, the text is parsed with ast.parse and the expression must be a call of the object\'s class '
+    'whose arguments rebuild exactly its attributes (names and values).')
 TRUSTED = ['midolint abstract interpreter with the symbolic string domain (midolint.strdom)', 'Python: repr(float) round-trips through float()']
 ASSUMPTIONS = ['times are finite ints or floats', 'a text that itself carries skip_checks=/self= as a word reaches the constructor flags '
                '(excluded by "valid message"; for invalid text the resulting TypeError is not decided)']
@@ -292,7 +293,9 @@ def r14_repr(ctx):
                 construct=f'{tr.qname}::paths')
 
 
-RULES = [('R14-str', r14_str), ('R14-dict', r14_dict), ('R14-errors', r14_errors), ('R14-repr', r14_repr)]
+# the structural conversion scan (r14_repr) was retired in favour of the semantic eval(repr(x)) rule below:
+# it would fire on behaviour-preserving rewrites (f-string <-> .format, repr() call <-> !r).
+RULES = [('R14-str', r14_str), ('R14-dict', r14_dict), ('R14-errors', r14_errors)]
 
 
 # ----------------------------------------------------------------------------- symbolic eval(repr(x))
